@@ -464,3 +464,116 @@ def stale_view(repo: Repo) -> List[Ob]:
     if n_fn < 15:
         raise AnalysisError(f"STALE-VIEW: {n_fn} functions (floor 15)")
     return obs
+
+
+PS_ACTIONS = {"apply_kraus", "measure_POVM", "trace_out", "apply_operation", "resize_fock", "measure"}
+
+
+@rule("STALE-PS")
+def stale_ps(repo: Repo) -> List[Ob]:
+    """a product-space handle fetched before a call that may merge product spaces (reorder -> combine) is not used afterwards,
+    unless the targets are already known to share one product space"""
+    from ..cfg import refine
+    from ..types import Typer
+    obs: List[Ob] = []
+    table = {"apply_kraus": ("C06",), "measure_POVM": ("C09",), "trace_out": ("C02",), "apply_operation": ("C01", "C03"), "resize_fock": ("C10",)}
+    n = 0
+    for mname, props in table.items():
+        fi = repo.func(f"CompositeEnvelope.{mname}")
+        typer = Typer(repo, fi)
+        cfg = CFG(fi.node)
+        handles = {nm for nm, cl in typer.var.items() if cl == {"ProductState"}}
+
+        def atom(e, truth, st):
+            fresh, grouped = st
+            if isinstance(e, ast.Call) and isinstance(e.func, ast.Name) and e.func.id == "all" and ".state_objs" in src(e) and truth:
+                return [(fresh, True)]
+            return [st]
+
+        def transfer(s: Node, lab, d, st):
+            fresh, grouped = st
+            if s.kind in ("test", "assert") and lab in ("T", "F"):
+                return refine(s.ast, lab == "T", st, atom)
+            for x in walk_node(s):
+                mc = method_call(x)
+                if mc and src(mc[0]) == "self" and mc[1] == "combine":
+                    fresh, grouped = frozenset(), True
+                if mc and src(mc[0]) == "self" and mc[1] == "reorder":
+                    single = len(x.args) == 1 and not isinstance(x.args[0], ast.Starred)
+                    if not grouped and not single:
+                        fresh = frozenset()
+                    grouped = True
+            a = s.ast
+            if s.kind == "stmt" and isinstance(a, (ast.Assign, ast.AnnAssign)) and getattr(a, "value", None) is not None:
+                tg = a.targets[0] if isinstance(a, ast.Assign) else a.target
+                if isinstance(tg, ast.Name) and tg.id in handles:
+                    v = a.value
+                    if isinstance(v, ast.Name) and v.id in handles:
+                        fresh = (fresh | {tg.id}) if v.id in fresh else (fresh - {tg.id})
+                    elif isinstance(v, ast.Subscript) and isinstance(v.value, ast.Name) and v.value.id in stale_lists.get(id(st), set()):
+                        fresh = fresh - {tg.id}
+                    else:
+                        fresh = fresh | {tg.id}
+            return [(fresh, grouped)]
+
+        stale_lists: Dict[int, set] = {}
+        seen = explore(cfg, (frozenset(), False), transfer)
+        k = 0
+        for node in cfg.nodes:
+            for x in walk_node(node):
+                mc = method_call(x)
+                if mc and isinstance(mc[0], ast.Name) and mc[0].id in handles and mc[1] in PS_ACTIONS:
+                    k += 1
+                    n += 1
+                    stale = [st for st in seen[node] if mc[0].id not in st[0]]
+                    key = f"handle:{mc[1]}#{k}"
+                    (obs.append(bad("STALE-PS", fi, key, props, x,
+                                    f"`{mc[0].id}` was fetched before `self.reorder(…)`, which merges product spaces when the targets do not yet share one: with one target inside a product space and "
+                                    f"another still on its own, `{mc[0].id}` is the emptied old product space")) if stale else
+                     obs.append(ok("STALE-PS", fi, key, props, x, "the product-space handle is fetched after the last call that can merge product spaces")))
+    if n < 5:
+        raise AnalysisError(f"STALE-PS: {n} product-space handle uses (floor 5)")
+    return obs
+
+
+@rule("DTYPE")
+def dtype(repo: Repo) -> List[Ob]:
+    """amplitudes are never written into a freshly created *real* buffer: `jnp.zeros(shape).at[...].set(<state>)`
+    silently drops imaginary parts (JAX casts to the buffer's dtype)"""
+    from .struct import state_functions
+    from ..scope import single_def_value
+    obs: List[Ob] = []
+    n = 0
+    for fi in state_functions(repo):
+        name = fi.node.name
+        props = {"apply_operation": ("C01", "C07"), "resize": ("C10", "C07"), "resize_fock": ("C10", "C07"), "measure": ("C05", "C07"), "measure_POVM": ("C09", "C07"),
+                 "apply_kraus": ("C06", "C07"), "expand": ("C08", "C07"), "contract": ("C08", "C07"), "combine": ("C02", "C07"), "reorder": ("C02", "C07"), "trace_out": ("C02",)}.get(name, ("C07",))
+        k = 0
+        for x in walk_no_nested(fi.node):
+            mc = method_call(x)
+            if not (mc and mc[1] in ("set", "add", "multiply") and isinstance(mc[0], ast.Subscript) and isinstance(mc[0].value, ast.Attribute) and mc[0].value.attr == "at" and x.args):
+                continue
+            buf = mc[0].value.value
+            if isinstance(buf, ast.Name):
+                v = single_def_value(fi.node, buf.id)
+                if v is None:
+                    from ..scope import assignments_to
+                    ds = [d for d in assignments_to(fi.node, buf.id) if getattr(d, "lineno", 0) < x.lineno and isinstance(d, ast.Assign)]
+                    v = ds[-1].value if ds else None
+                buf = v if v is not None else buf
+            real_buffer = isinstance(buf, ast.Call) and call_np(buf) in ("zeros", "ones", "empty", "full") \
+                and not any(kw.arg == "dtype" and "complex" in src(kw.value) for kw in buf.keywords) \
+                and not (len(buf.args) > 1 and "complex" in src(buf.args[-1]))
+            if not real_buffer:
+                continue
+            k += 1
+            n += 1
+            val = x.args[0]
+            const = isinstance(val, ast.Constant) or (isinstance(val, ast.UnaryOp) and isinstance(val.operand, ast.Constant))
+            key = f"real-buffer-write#{k}"
+            (obs.append(ok("DTYPE", fi, key, props, x, "a real constant is written into a real buffer")) if const else
+             obs.append(bad("DTYPE", fi, key, props, x,
+                            f"`{src(val)[:40]}` is written into a buffer created by `{src(buf)[:40]}` (real dtype): complex amplitudes are silently cast to their real part")))
+    if n < 3:
+        raise AnalysisError(f"DTYPE: {n} writes into freshly created buffers (floor 3)")
+    return obs
